@@ -32,10 +32,10 @@ Lines ==
 
 VARIABLES doc, pst
 vars == <<doc, pst>>
-Init == doc = <<>> /\ pst = InitState
+Init == doc = <<>> /\ pst = InitState({})
 AddLine(l) == /\ Len(doc) < MaxLines
               /\ doc' = Append(doc, l)
-              /\ pst' = Feed(pst, Tokens(l, Len(doc) + 1), 1, {})
+              /\ pst' = Feed(pst, Tokens(l, Len(doc) + 1), 1)
 Next == \E l \in Lines : AddLine(l)
 Spec == Init /\ [][Next]_vars
 
@@ -44,7 +44,7 @@ AsIsRelevant == (\E i \in 1..Len(doc) : doc[i].t = "R") /\ (\E i \in 1..Len(doc)
 \* G: the case is printed with what the model demands
 Case ==
   \* (bound variables are evaluated once; LET definitions would be re-evaluated on every use)
-  \E tree \in { Finish(pst, {}).root } :
+  \E tree \in { Finish(pst).root } :
   \E ref \in { RefRelations(Plain(doc)) } :
   \E treeA \in { IF AsIsRelevant THEN MachineTree(doc, AllDevs) ELSE tree } :
     LET base == [doc |-> Plain(doc), rel |-> ref, tree |-> tree] IN
